@@ -158,6 +158,103 @@ fn tag_strategy(_: &Ctx) -> BoxedStrategy<TagCase> {
         .boxed()
 }
 
+// --- headers one after the other at the same address ------------------------------
+
+#[derive(Clone, Debug, Serialize, Deserialize)]
+pub struct SeqCase {
+    pub steps: Vec<Hex>,
+}
+
+/// The headers are written one after the other to the same address and fully
+/// exercised in one process (a forked child, ordinary memory): every returned
+/// reference lies inside the header declared *now*, and every stored result is
+/// the reference model's for that header alone.
+fn eval_seq(c: &SeqCase, obs: &mut Obs) -> Result<(), String> {
+    for s in &c.steps {
+        if s.0.len() < 16 || s.0.len() != r8(le32(&s.0, 8) as usize).max(16) || s.0.len() > 1 << 16 {
+            return Err("malformed case".into());
+        }
+    }
+    let cap = c.steps.iter().map(|s| s.0.len()).max().unwrap_or(16) + 4096;
+    let r = mb2_sandbox::run_child(|| {
+        let mut buf = Aligned::new(&vec![0xEEu8; cap]);
+        for (i, img) in c.steps.iter().enumerate() {
+            let mut all = vec![0xEEu8; cap];
+            all[..img.0.len()].copy_from_slice(&img.0);
+            buf.overwrite(&all);
+            let t = unsafe { mb2_model::exercise_hdr::exercise_hdr(buf.as_ptr(), &HdrOpts { debug: true, max_steps: img.0.len() / 8 + 4 }) };
+            let len = le32(&img.0, 8) as usize;
+            if let Err(m) = super::c01::validate_from(&t, len, 16) {
+                return format!("E header {} of {} at the same address: {m}", i + 1, c.steps.len()).into_bytes();
+            }
+            let d = mb2_model::expect_hdr::expect_hdr(&img.0).diff(&t, &|k| !k.split('.').any(|seg| seg == "dbg" || seg.starts_with('~')));
+            if !d.is_empty() {
+                return format!("E header {} of {} at the same address: {}", i + 1, c.steps.len(), d.join("; ")).into_bytes();
+            }
+        }
+        b"OK".to_vec()
+    });
+    match r {
+        mb2_sandbox::ChildResult::Done(b) if b == b"OK" => {}
+        mb2_sandbox::ChildResult::Done(b) => return Err(String::from_utf8_lossy(&b[2.min(b.len())..]).into_owned()),
+        mb2_sandbox::ChildResult::Signal(sig) => return Err(format!("{} headers one after the other at the same address crashed the process (signal {sig})", c.steps.len())),
+        _ => {
+            obs.inconclusive("child did not report");
+            return Ok(());
+        }
+    }
+    let lens: Vec<usize> = c.steps.iter().map(|s| s.0.len()).collect();
+    let shrinks = lens.windows(2).any(|w| w[1] < w[0]);
+    obs.class(if shrinks { "!later-header-shorter" } else { "not-shrinking" });
+    if shrinks {
+        obs.nontrivial(fnv(format!("{:?}", c.steps).as_bytes()));
+        obs.sample(json!({"header_lengths": lens}));
+    }
+    Ok(())
+}
+
+fn strategy_seq(_: &Ctx) -> BoxedStrategy<SeqCase> {
+    // a valid header with several tags, then headers made of a prefix / a suffix /
+    // a rotation of its tags (the same tags at other offsets, a shorter header at
+    // the same address), or an unrelated one
+    (gen::hdr_spec(8, false), proptest::collection::vec((0u8..5, any::<u8>(), gen::hdr_spec(5, false)), 1..=3))
+        .prop_map(|(mut base, vars)| {
+            base.end = true;
+            let build = |s: &gen::HdrSpec| {
+                let mut region = gen::build_hdr(s);
+                if sanitize_hdr_enums(&mut region) > 0 {
+                    let (m, a, l) = (le32(&region, 0), le32(&region, 4), le32(&region, 8));
+                    put32(&mut region, 12, mb2_model::walk::model_checksum(m, a, l));
+                }
+                Hex(region)
+            };
+            let mut steps = vec![build(&base)];
+            for (kind, r, mut other) in vars {
+                let mut v = base.clone();
+                let k = v.tags.len();
+                match kind {
+                    0 if k > 0 => v.tags.truncate(r as usize % k),
+                    1 if k > 0 => {
+                        v.tags.drain(..(1 + r as usize % k).min(k));
+                    }
+                    2 if k > 1 => v.tags.rotate_left(1 + r as usize % (k - 1)),
+                    3 if k > 0 => {
+                        let i = r as usize % k;
+                        let d = v.tags[i].clone();
+                        v.tags.insert(0, d);
+                    }
+                    _ => {
+                        other.end = true;
+                        v = other;
+                    }
+                }
+                steps.push(build(&v));
+            }
+            SeqCase { steps }
+        })
+        .boxed()
+}
+
 /// Every kind's conformant header tag at every declared size 8..=len+16, cut or
 /// padded to that size (tag flush against the guard page).
 fn enumerate_tags(_: &Ctx) -> Box<dyn Iterator<Item = TagCase>> {
@@ -204,6 +301,17 @@ pub fn subs() -> Vec<Box<dyn Sub>> {
             enumerate: Some(enumerate_tags),
             enum_exhaustive: false,
             eval: eval_tag,
+        }),
+        Box::new(PropSub::<SeqCase> {
+            name: "hdr-sequences",
+            rule: "2..=4 valid headers written one after the other to the same address and fully exercised in one process: a header with up to 8 tags, then headers made of a prefix, a suffix or a rotation of its tags, one of its tags twice, or an unrelated header. Oracle: extent check against the length declared now (every returned reference inside the current header) and the complete stored transcript equals the reference model's for that header alone. Non-trivial = a later header is shorter than an earlier one; distinct by the sequence",
+            profiles: Profiles::Both,
+            quick: 6000,
+            thorough: 300000,
+            strategy: strategy_seq,
+            enumerate: None,
+            enum_exhaustive: false,
+            eval: eval_seq,
         }),
         Box::new(super::fuzzsub::FuzzSub { target: "fuzz_hdr", name: "fuzz-hdr", runs: 1_600_000, quick_runs: 30_000, max_len: 1024 }),
     ]
